@@ -1,9 +1,98 @@
 package main
 
-import "verif/core"
+import (
+	"context"
+	"fmt"
+	"time"
 
-// runDirected replays the witnesses of known findings / fixed defects.
+	am "github.com/pancsta/asyncmachine-go/pkg/machine"
+
+	"verif/core"
+)
+
+func mk(schema am.Schema) *am.Machine {
+	return am.New(context.Background(), schema, &am.Opts{Id: "c06d", DontLogId: true, DontLogStackTrace: true})
+}
+
+// runDirected replays the witnesses of the defects this check found (all
+// repaired by fix: commits; a regression is reported with the same signature).
 func runDirected(res *core.CaseResult, c core.CaseDesc) {
 	res.Evals++
 	res.Key("directed", c.Seed)
+	switch c.Seed {
+	case 0: // WhenQuery with a ctx: no panic, expiry collected by the next accepted transition
+		m := mk(am.Schema{"A": {}, "B": {}})
+		ctx, cancel := context.WithCancel(context.Background())
+		ch := m.WhenQuery(func(cl am.Clock) bool { return cl["A"] >= 100 }, ctx)
+		cancel()
+		m.Add1("B", nil)
+		if !isClosed(ch) {
+			res.Violate("C06/lost/whenquery/ctx-expiry", "WhenQuery(ctx) still open after its ctx ended and an accepted transition ran", nil)
+		}
+	case 1: // WhenQuery closed by dispose
+		m := mk(am.Schema{"A": {}})
+		ch := m.WhenQuery(func(cl am.Clock) bool { return false }, nil)
+		m.Dispose()
+		select {
+		case <-m.WhenDisposed():
+		case <-time.After(10 * time.Second):
+			res.Inconclusive = "dispose did not complete"
+			return
+		}
+		if !isClosed(ch) {
+			res.Violate("C06/lost/whenquery/dispose", "WhenQuery channel open after Dispose", nil)
+		}
+	case 2: // sibling ctx expiry must not drop another binding's index entry
+		m := mk(am.Schema{"A": {}, "B": {}})
+		ctx, cancel := context.WithCancel(context.Background())
+		_ = m.When(am.S{"A", "B"}, ctx)
+		other := m.When(am.S{"A"}, nil)
+		cancel()
+		m.Add1("B", nil) // collects the expired binding
+		m.Add1("A", nil)
+		if !isClosed(other) {
+			res.Violate("C06/lost/when/sibling-ctx-expiry", "When[A] stayed open after A became active: "+
+				"the expiry of a When[A B](ctx) binding removed its index entry", nil)
+		}
+	case 3: // SetSchema: time subscriptions keep working, also on the new state's first tick
+		m := mk(am.Schema{"A": {}})
+		m.Add1("A", nil)
+		ns := m.Schema()
+		ns["Z"] = am.State{}
+		if err := m.SetSchema(ns, append(append(am.S{}, m.StateNames()...), "Z")); err != nil {
+			res.Inconclusive = "SetSchema: " + err.Error()
+			return
+		}
+		chA := m.WhenTime1("A", 3, nil)
+		chZ := m.WhenTicks("Z", 1, nil)
+		m.Remove1("A", nil)
+		m.Add1("A", nil)
+		m.Add1("Z", nil)
+		if !isClosed(chA) {
+			res.Violate("C06/lost/whentime/after-SetSchema", fmt.Sprintf("WhenTime1(A,3) open although Tick(A)=%d", m.Tick("A")), nil)
+		}
+		if !isClosed(chZ) {
+			res.Violate("C06/lost/whenticks/new-state-first-tick", fmt.Sprintf("WhenTicks(Z,1) open although Tick(Z)=%d", m.Tick("Z")), nil)
+		}
+	case 4: // When must not close on a combination that never existed
+		m := mk(am.Schema{"A": {Remove: am.S{"B"}}, "B": {}})
+		m.Add1("B", nil)
+		ch := m.When(am.S{"A", "B"}, nil)
+		m.Add1("A", nil) // activates A and deactivates B in one transition
+		if isClosed(ch) {
+			res.Violate("C06/spurious/when/activate+deactivate-in-one-transition",
+				"When[A B] closed although A and B were never active together", nil)
+		}
+	case 5: // WhenArgs: different contexts, different channels
+		m := mk(am.Schema{"A": {Multi: true}})
+		ctx, cancel := context.WithCancel(context.Background())
+		_ = m.WhenArgs("A", am.A{"k": 1}, ctx)
+		plain := m.WhenArgs("A", am.A{"k": 1}, nil)
+		cancel()
+		m.Add1("A", am.A{"k": 2})
+		if isClosed(plain) {
+			res.Violate("C06/spurious/whenargs/shared-with-expired-ctx",
+				"WhenArgs(A,{k:1}) without ctx closed when another subscription's ctx expired", nil)
+		}
+	}
 }
